@@ -89,6 +89,7 @@ var wParamFuncs = map[string][2]string{
 }
 
 type wcallee struct {
+	fuel     bool // the function calls itself: a leading `fuel : Nat`, `none` when it runs out
 	lean     string
 	params   []string
 	results  []string
@@ -191,7 +192,7 @@ func (c *wctx) at(n ast.Node) string {
 	return fmt.Sprintf("%s:%d", p.Filename[strings.LastIndex(p.Filename, "/")+1:], p.Line)
 }
 
-var wReserved = map[string]bool{"rest_": true, "some": true, "none": true, "decide": true, "default": true, "true": true, "false": true,
+var wReserved = map[string]bool{"fuel": true, "rest_": true, "some": true, "none": true, "decide": true, "default": true, "true": true, "false": true,
 	"wsLit": true, "wsIdx": true, "wsFrom": true, "wsTo": true, "wsSet": true, "wsRepeat": true, "wsReplaceByte": true, "wsJoin": true,
 	"wsPadLeft": true, "wsPadRight": true, "wsMapGet": true, "wsRange": true, "wsStrLt": true, "List": true, "Option": true, "Int": true,
 	"Bool": true, "UInt8": true, "Nat": true, "String": true, "Unit": true}
@@ -529,6 +530,11 @@ func (c *wctx) binary(n *ast.BinaryExpr, pre *[]wbind) wval {
 		case "int":
 			return wval{typ: typ, expr: "(" + a.expr + " + " + b.expr + ")", lit: lit}
 		}
+	case token.QUO:
+		// Go's `/` truncates towards zero; only a non-zero literal divisor (no division panic)
+		if ka == "int" && b.lit && b.expr != "(0 : Int)" {
+			return wval{typ: typ, expr: "(Int.tdiv " + a.expr + " " + b.expr + ")", lit: lit}
+		}
 	case token.SUB, token.MUL:
 		if ka == "int" {
 			return wval{typ: typ, expr: "(" + a.expr + " " + n.Op.String() + " " + b.expr + ")", lit: lit}
@@ -549,6 +555,15 @@ func (c *wctx) binary(n *ast.BinaryExpr, pre *[]wbind) wval {
 		op := map[token.Token]string{token.LSS: "<", token.LEQ: "≤", token.GTR: ">", token.GEQ: "≥"}[n.Op]
 		if ka == "int" {
 			return wval{typ: "prop", expr: "(" + a.expr + " " + op + " " + b.expr + ")"}
+		}
+		if ka == "string" {
+			// the order of Go strings: bytewise lexicographic
+			switch n.Op {
+			case token.LSS:
+				return wval{typ: "bool", expr: "(wsStrLt " + a.expr + " " + b.expr + ")"}
+			case token.GTR:
+				return wval{typ: "bool", expr: "(wsStrLt " + b.expr + " " + a.expr + ")"}
+			}
 		}
 	}
 	refuse("%s: operator %s on %s outside the subset", c.at(n), n.Op, ka)
@@ -1088,6 +1103,12 @@ func (c *wctx) callKey(p *wpkg, key string, args []wval, n ast.Node, pre *[]wbin
 		refuse("%s: %s is called with %d arguments", c.at(n), full, len(args))
 	}
 	call := cal.lean
+	if cal.fuel {
+		if c.f.base != cal.lean {
+			refuse("%s: the recursive function %s is called from another function", c.at(n), full)
+		}
+		call += " fuel"
+	}
 	for _, s := range cal.specials {
 		call += " " + c.special(s)
 	}
@@ -1157,10 +1178,11 @@ func (m *wmod) callee(p *wpkg, key string) *wcallee {
 func (m *wmod) calleeFrom(p *wpkg, key string, fd *ast.FuncDecl, lean, note string) *wcallee {
 	full := p.name + "." + key
 	if m.busy[full] {
-		refuse("%s is recursive", full)
+		refuse("%s is (mutually) recursive", full)
 	}
 	m.busy[full] = true
 	defer delete(m.busy, full)
+	selfRec := fd.Recv == nil && len(callsNamed(fd.Body, fd.Name.Name)) > 0
 	if fd.Type.TypeParams != nil {
 		refuse("%s is generic", full)
 	}
@@ -1215,6 +1237,18 @@ func (m *wmod) calleeFrom(p *wpkg, key string, fd *ast.FuncDecl, lean, note stri
 		cal.results = append(cal.results, t)
 	}
 
+	for _, pr := range pars {
+		cal.params = append(cal.params, pr.typ)
+	}
+	if selfRec {
+		cal.fuel, cal.effect = true, true
+		m.known[full] = cal
+		defer func() {
+			if m.known[full] == cal && len(m.defs) > 0 && !strings.Contains(m.defs[len(m.defs)-1], "def "+cal.lean+" ") {
+				delete(m.known, full)
+			}
+		}()
+	}
 	var body string
 	translate := func(eff bool) {
 		c := &wctx{f: f, vars: map[string]*wvar{}, marks: map[string]bool{}, eff: eff}
@@ -1265,7 +1299,12 @@ func (m *wmod) calleeFrom(p *wpkg, key string, fd *ast.FuncDecl, lean, note stri
 		})
 	}
 	snap := f.snapshot()
-	if !wCatch(func() { translate(false) }) {
+	if selfRec {
+		translate(true)
+		for k := range f.used {
+			refuse("%s: a recursive function that uses the parameter %s", full, k)
+		}
+	} else if !wCatch(func() { translate(false) }) {
 		f.restore(snap)
 		f.used = map[string]bool{}
 		cal.effect = true
@@ -1280,9 +1319,6 @@ func (m *wmod) calleeFrom(p *wpkg, key string, fd *ast.FuncDecl, lean, note stri
 		if f.used[sp.name] {
 			cal.specials = append(cal.specials, sp.name)
 		}
-	}
-	for _, pr := range pars {
-		cal.params = append(cal.params, pr.typ)
 	}
 	// the definition
 	b := strings.Builder{}
@@ -1301,7 +1337,13 @@ func (m *wmod) calleeFrom(p *wpkg, key string, fd *ast.FuncDecl, lean, note stri
 	if cal.effect {
 		doc += " (`none` = a run-time panic)"
 	}
+	if cal.fuel {
+		doc += "; the function calls itself: `fuel` bounds the depth, `none` also when it runs out"
+	}
 	fmt.Fprintf(&b, "/-- %s -/\ndef %s", doc, f.base)
+	if cal.fuel {
+		b.WriteString(" (fuel : Nat)")
+	}
 	for _, s := range cal.specials {
 		b.WriteString(" " + wSpecialBinder(s))
 	}
@@ -1312,7 +1354,11 @@ func (m *wmod) calleeFrom(p *wpkg, key string, fd *ast.FuncDecl, lean, note stri
 		}
 		fmt.Fprintf(&b, " (%s : %s)", nm, m.w.lean(pr.typ, m.need))
 	}
-	fmt.Fprintf(&b, " : %s :=\n%s\n", rt, wIndent(body))
+	if cal.fuel {
+		fmt.Fprintf(&b, " : %s :=\n  match fuel with\n  | 0 => none\n  | fuel + 1 =>\n%s\n", rt, wIndent(wIndent(body)))
+	} else {
+		fmt.Fprintf(&b, " : %s :=\n%s\n", rt, wIndent(body))
+	}
 	m.defs = append(m.defs, b.String())
 	m.known[full] = cal
 	return cal
